@@ -75,7 +75,7 @@ func (c *c07) Cases(tier string, seed int64) []core.Case {
 	// coders of many different shapes built and used by several goroutines at
 	// the same time (anything remembered per shape is then shared)
 	for i := 0; i < map[string]int{"quick": 2, "thorough": 8}[tier]; i++ {
-		cs = append(cs, core.MkCase(fmt.Sprintf("concurrent-shapes-%d", i), c07Params{Mode: "concurrent-shapes", Seed: r.Int63(), Trials: map[string]int{"quick": 1500, "thorough": 6000}[tier]}))
+		cs = append(cs, core.MkCase(fmt.Sprintf("concurrent-shapes-%d", i), c07Params{Mode: "concurrent-shapes", Seed: r.Int63(), Trials: map[string]int{"quick": 40000, "thorough": 200000}[tier]}))
 	}
 	// The GOARCH=386 build of the worker (32-bit int, portable kernels): the
 	// documented limits, two exhaustive grids and a few large random codes.
@@ -534,71 +534,98 @@ func (c *c07) Run(cs core.Case) core.Result {
 		r.Sample(map[string]interface{}{"mode": "singular-search", "d": d, "p": pc, "trials": p.Trials})
 	case "concurrent-shapes":
 		const workers = 8
+		// fixed data and the expected parity per shape, computed up front, so
+		// that the goroutines spend their time in the constructors and coders
+		type shape struct {
+			kind   string
+			d, pc  int
+			data   [][]byte
+			parity [][]byte
+		}
+		var shapes []shape
+		for _, kind := range []string{"vandermonde", "cauchy"} {
+			for d := 1; d <= 9; d++ {
+				for pc := 1; pc <= 6; pc++ {
+					data := randShards(rng, d, 4)
+					shapes = append(shapes, shape{kind, d, pc, data, refParity(kind, data, pc)})
+				}
+			}
+		}
 		var mu sync.Mutex
 		var wg sync.WaitGroup
 		bad := 0
+		start := make(chan struct{})
 		for w := 0; w < workers; w++ {
 			wg.Add(1)
 			go func(w int) {
 				defer wg.Done()
 				wr := rand.New(rand.NewSource(p.Seed + int64(w)*7919))
+				<-start
 				for it := 0; it < p.Trials; it++ {
-					kind := []string{"vandermonde", "cauchy"}[wr.Intn(2)]
-					d, pc := 1+wr.Intn(9), 1+wr.Intn(6)
-					data := randShards(wr, d, 2*(1+wr.Intn(3)))
+					sh := shapes[wr.Intn(len(shapes))]
+					if w%2 == 0 {
+						// half of the goroutines stay with the Vandermonde coder
+						sh = shapes[wr.Intn(len(shapes)/2)]
+					}
 					var msg string
 					pi := core.Protect(func() {
 						var coder rsec16.Coder
 						var err error
-						if kind == "cauchy" {
-							coder, err = rsec16.NewCoderCauchy(d, pc, 1+wr.Intn(2))
+						if sh.kind == "cauchy" {
+							coder, err = rsec16.NewCoderCauchy(sh.d, sh.pc, 1)
 						} else {
-							coder, err = rsec16.NewCoderPAR2Vandermonde(d, pc, 1+wr.Intn(2))
+							coder, err = rsec16.NewCoderPAR2Vandermonde(sh.d, sh.pc, 1)
 						}
 						if err != nil {
 							msg = "constructor: " + err.Error()
 							return
 						}
-						parity := coder.GenerateParity(data)
-						want := refParity(kind, data, pc)
-						for e := range want {
-							if string(parity[e]) != string(want[e]) {
+						parity := coder.GenerateParity(sh.data)
+						if len(parity) != sh.pc {
+							msg = fmt.Sprintf("%d parity shards", len(parity))
+							return
+						}
+						for e := range sh.parity {
+							if string(parity[e]) != string(sh.parity[e]) {
 								msg = fmt.Sprintf("parity shard %d differs from the definition", e)
 								return
 							}
 						}
-						// lose the first data shard, keep the first parity shard
-						in := make([][]byte, d)
-						for i := 1; i < d; i++ {
-							in[i] = append([]byte{}, data[i]...)
-						}
-						par := make([][]byte, pc)
-						par[0] = append([]byte{}, parity[0]...)
-						if err := coder.ReconstructData(in, par); err != nil {
-							msg = "reconstruction of one shard from parity shard 0: " + err.Error()
-						} else if string(in[0]) != string(data[0]) {
-							msg = "nil error, wrong data"
+						if it%8 == 0 {
+							// lose the first data shard, keep the first parity shard
+							in := make([][]byte, sh.d)
+							for i := 1; i < sh.d; i++ {
+								in[i] = append([]byte{}, sh.data[i]...)
+							}
+							par := make([][]byte, sh.pc)
+							par[0] = append([]byte{}, parity[0]...)
+							if err := coder.ReconstructData(in, par); err != nil {
+								msg = "reconstruction of one shard from parity shard 0: " + err.Error()
+							} else if string(in[0]) != string(sh.data[0]) {
+								msg = "nil error, wrong data"
+							}
 						}
 					})
-					mu.Lock()
-					r.Count("concurrent_coder_uses", 1)
 					if pi != nil || msg != "" {
+						mu.Lock()
 						bad++
 						if bad <= 3 {
 							if pi != nil {
-								r.Violate("panic-under-concurrent-use|"+pi.Frame, "%s d=%d p=%d while %d goroutines build and use coders of other shapes: %s", kind, d, pc, workers, pi.Msg)
+								r.Violate("panic-under-concurrent-use|"+pi.Frame, "%s d=%d p=%d while %d goroutines build and use coders of other shapes: %s", sh.kind, sh.d, sh.pc, workers, pi.Msg)
 							} else {
-								r.Violate("wrong-result-under-concurrent-use", "%s d=%d p=%d while %d goroutines build and use coders of other shapes: %s", kind, d, pc, workers, msg)
+								r.Violate("wrong-result-under-concurrent-use", "%s d=%d p=%d while %d goroutines build and use coders of other shapes: %s", sh.kind, sh.d, sh.pc, workers, msg)
 							}
 						}
+						mu.Unlock()
 					}
-					mu.Unlock()
 				}
 			}(w)
 		}
+		close(start)
 		wg.Wait()
-		r.Key("concurrent-shapes|%d", workers)
-		r.Sample(map[string]interface{}{"mode": "concurrent-shapes", "goroutines": workers, "uses_per_goroutine": p.Trials})
+		r.Count("concurrent_coder_uses", int64(workers*p.Trials))
+		r.Key("concurrent-shapes|%d|%d", workers, len(shapes))
+		r.Sample(map[string]interface{}{"mode": "concurrent-shapes", "goroutines": workers, "uses_per_goroutine": p.Trials, "shapes": len(shapes)})
 	case "limits":
 		type lim struct {
 			kind   string
